@@ -114,6 +114,82 @@ def run_c41(out, tier, seed):
 
 
 # ------------------------------------------------------------------------------------------------
+# C45  CSPTP server answers only requests, with correct echoes  (Csptp.tla, server part)
+# ------------------------------------------------------------------------------------------------
+_C45_PRIORITY = ["panic", "nsend", "ev_kind", "ev_domain", "ev_seq", "ev_ingress", "ev_reqcorr", "ev_twostep",
+                 "fu_kind", "fu_domain", "fu_seq", "fu_origin"]
+
+
+def _c45_shape(d):
+    dev = []
+    if d["parse"] != "ok":
+        dev.append("parse=" + d["parse"])
+    if d["sdo"] != "csptp":
+        dev.append("sdo=other")
+    if d["major"] != 2:
+        dev.append("major=%d" % d["major"])
+    if d["pad"]:
+        dev.append("padded")
+    return "%s[%s]%s" % (d["body"], "+".join(d["tlvs"]), ("," + ",".join(dev)) if dev else "")
+
+
+def run_c45(out, tier, seed):
+    wd = vf.workdir("CsptpServer")
+    res, tagged = _tlc_cases("MC_CsptpServer", "Gen_CsptpServer.cfg")
+    cases = tagged["CASE"]
+    if len(cases) < 500:
+        raise vf.ToolError("CsptpServer: TLC printed only %d cases" % len(cases))
+    _finish_mc(out, res)
+    cases.sort(key=lambda c: (vf.key(c["act"]["s"]), vf.key(c["act"]["d"])))
+    if tier == "thorough":
+        # a second arrangement: every datagram class is also handled right after every other one in one serve() call
+        rng = random.Random(seed)
+        extra = []
+        for c in cases:
+            extra.append(c)
+        bystate = {}
+        for c in cases:
+            bystate.setdefault(vf.key(c["act"]["s"]), []).append(c)
+        for k in sorted(bystate):
+            g = list(bystate[k])
+            for _ in range(4):
+                rng.shuffle(g)
+                extra += g
+        cases = extra
+    rows = []
+    for n, c in enumerate(cases):
+        rows.append({"id": n, "s": _case_seed(vf.key(c["act"]) + str(n), seed), "act": c["act"], "out": c["out"], "cone": c["cone"]})
+    inp = os.path.join(wd, "cases_C45.ndjson")
+    outp = os.path.join(wd, "results_C45.ndjson")
+    vf.write_ndjson(inp, rows)
+    vf.run_harness(CRATE, "csptp_server::verif_csptp_server", {"input": inp, "output": outp, "seed": seed, "chunk": 16}, which="ext")
+    results = vf.read_ndjson(outp)
+    summary = results[-1].get("summary")
+    if not summary or summary["cases"] != len(rows):
+        raise vf.ToolError("CsptpServer harness did not process all cases: %s" % summary)
+    if summary["answered"] == 0 or summary["unanswered"] == 0:
+        raise vf.ToolError("CsptpServer replay is vacuous: %s" % summary)
+    out.add("model_cases", len(tagged["CASE"]))
+    out.add("replayed_cases", len(rows))
+    out.add("cases_confirmed_on_impl", len(rows) - (len(results) - 1))
+    out.add("impl_answered", summary["answered"])
+    out.add("impl_unanswered", summary["unanswered"])
+    for r in results[:-1]:
+        c = rows[r["id"]]
+        fields = set(r["fields"])
+        hit = [f for f in _C45_PRIORITY if f in fields and f in c["cone"]]
+        detail = {"how": "replay", "case": c["act"], "expected": c["out"], "observed": r["observed"], "panic": r.get("panic"),
+                  "differing": sorted(fields), "case_seed": c["s"]}
+        if hit:
+            out.violation("CsptpServer:%s:%s" % (_c45_shape(c["act"]["d"]), hit[0]), detail)
+        else:
+            out.divergences.append(detail)
+            out.notes.append("divergence outside C45's cone: %s fields %s" % (_c45_shape(c["act"]["d"]), sorted(fields)))
+    out.sample({"case": rows[0]["act"], "expected": rows[0]["out"]})
+    out.sample({"case": rows[len(rows) // 2]["act"], "expected": rows[len(rows) // 2]["out"]})
+
+
+# ------------------------------------------------------------------------------------------------
 def run(prop, tier, seed):
     out = vf.Outcome(prop, tier, seed, "model_checking")
     out.assumptions += ["code observed as compiled for tests (debug assertions, overflow checks on)",
@@ -126,12 +202,19 @@ def run(prop, tier, seed):
                                 "accepted strings")
         out.assumptions.append("only canonical field values (decode(encode(v)) = v, reserved bits zero) are generated for the equality clauses")
         run_c41(out, tier, seed)
+    elif prop == "C45":
+        out.coverage["rule"] = ("every (server state, datagram class) pair of the bounded CsptpServer model (C45_Step checked by TLC on the "
+                                "specification) is run through the real statime_csptp::serve with a recording ServerSocket, 16 datagrams per "
+                                "serve() call; sent datagrams are decoded by the harness's own decoder and compared field by field")
+        out.assumptions.append("the leap indicator of the server state cannot be set through the public API (time_snapshot is never updated): "
+                               "only the default (no leap flags) is exercised")
+        run_c45(out, tier, seed)
     else:
         raise vf.ToolError("no check for %s" % prop)
     return out
 
 
-PROPS = ["C41"]
+PROPS = ["C41", "C45"]
 
 _T = ("TLA+ grammar/codec specification model-checked with TLC over the bounded input-class space; every class concretised and "
       "replayed on the real code through the stand-alone harness (harness/ext)")
@@ -142,4 +225,11 @@ MANIFEST = {
                      "enumeration, parse->serialise prefix, no panic; plus seeded byte-level mutation for parse totality.",
                 note="bounded grammar; canonical field values only; byte-level totality is exploration (seeded mutations), not a proof; "
                      "error kinds (Invalid vs BufferTooShort) and the acceptance of non-serialised byte strings are outside the cone"),
+    "C45": dict(level="model_checking", technique=_T, design_ref="6.11, 7 (C45)", engine="tlc+replay",
+                text="48 server states (timescale/traceability flags x receive-time class x send_event result) x 90 datagram classes "
+                     "(well-formed requests over ids, correction classes, flags, TLV arrangements; one-deviation non-requests): answered iff "
+                     "well-formed request; response echoes domain, sequence id, receive time, correction, announces follow-up; follow-up "
+                     "carries send_event's timestamp; nothing else is sent.",
+                note="leap flags only in their default state (not settable through the public API); header constants, addresses and the "
+                     "status TLV's content are compared but lie outside the cone"),
 }
